@@ -235,4 +235,9 @@ example : (((5 * 4294967296) % Gen.q120_q 0 + 2 * Gen.q120_q 0) % Gen.q120_q 0
 example : IsI64 (-9223372036854775808) ∧ IsI64 9223372036854775807 := by
   unfold IsI64; omega
 
+/-- Gen obligation: the length domain of the product theorems (`ell ≤ Gen.q120_max_ell`, the `MAX_ELL` read from the
+    source on every run) covers the property's domain `0..10000`: lowering `MAX_ELL` in the source fails here instead of
+    silently shrinking what is proved. -/
+theorem max_ell_covers : 10000 ≤ Gen.q120_max_ell := by decide
+
 end Spq.C10
